@@ -463,17 +463,20 @@ class SeqCheck:
         # components whose theorem pins the answers uniquely (model answer = the only answer the
         # property allows on generated inputs): a difference is itself a failing input
         if diffs and self.diff_is_violation and not any(v[0] == "spec" for v in violations):
-            l, mobs = diffs[0]
-            small = self.shrink(l, lambda r, ln: not r[0])
-            sres = self.evaluate([small])[0]
-            d = self.first_diff(small, sres[2])
-            rp = os.path.join(VERIF, "replays", "%s-%d-1.hist" % (pid, seed))
-            with open(rp, "w") as f:
-                f.write("// %s: the implementation's answer differs from the only answer the property allows (the Coq model's, proved to meet the Spec)\n" % pid)
-                f.write("// first difference at operation %s: implementation %s, required %s\n" % (d or ("?", "?", "?")))
-                f.write("// %d of %d histories differ; replay: ./check %s --replay %s\n" % (len(diffs), total, pid, rp))
-                f.write(small + "\n")
-            violations.append(("spec", "answer differs from the proved model", rp, False))
+            failing = [d for d in diffs if self.diff_is_failing_input(d[0])]
+            if failing:
+                l, mobs = failing[0]
+                small = self.shrink(l, lambda r, ln: not r[0] and self.diff_is_failing_input(ln))
+                sres = self.evaluate([small])[0]
+                d = self.first_diff(small, sres[2])
+                rp = os.path.join(VERIF, "replays", "%s-%d-1.hist" % (pid, seed))
+                with open(rp, "w") as f:
+                    f.write("// %s: %s\n" % (pid, self.failing_text()))
+                    f.write("// first difference at operation %s: implementation %s, required %s\n" % (d or ("?", "?", "?")))
+                    f.write("// %d of %d histories differ (%d of them failing inputs); replay: ./check %s --replay %s\n"
+                            % (len(diffs), total, len(failing), pid, rp))
+                    f.write(small + "\n")
+                violations.append(("spec", "answer differs from the proved model", rp, False))
 
         # broken correspondence without a Spec violation found
         if diffs and not any(v[0] == "spec" for v in violations) and self.diff_is_mine(pid, diffs):
@@ -508,6 +511,14 @@ class SeqCheck:
 
     def model_entry_for(self, conf):
         return self.model_entry
+
+    def diff_is_failing_input(self, line):
+        """for diff_is_violation components: is this differing history itself a counterexample to the property?"""
+        return True
+
+    def failing_text(self):
+        return ("the implementation's answer differs from the only answer the property allows (the Coq model's, "
+                "proved to meet the Spec)")
 
     def model_postprocess(self, line, model_obs):
         """hook: e.g. replace the prediction by the observation when the model declares the history ambiguous"""
